@@ -41,25 +41,26 @@ fn expected_kind(ty: u8) -> u8 {
     }
 }
 
-/// One fixed-length frame of any type code except 31 (all-zero body: a valid status message and a
-/// valid 0-cut VCP), followed by a trailing fragment of 0..=27 symbolic bytes: exactly one message,
-/// header intact, opaque placeholder exactly for types without a decoder.
-#[kani::proof]
-#[kani::unwind(30)]
-#[kani::stub(alloc::fmt::format, crate::stubs::fmt_format)]
-fn c03_one_frame_plus_fragment() {
+// The type code of every frame is CONCRETE per harness: with a symbolic code CBMC walks into the status
+// and the VCP decoder under every path (one frame: > 25 min, two: > 50 min / 23 GB), with a concrete
+// code one frame costs 40 s.  The dispatch has three special cases (2, 5, 31) and a default; the
+// representatives are 2, 5, 15 (the commented-out decoder), 0, 33 and 255.  Headers, fragments,
+// truncation points and the type-31 contents stay symbolic.  All 253 opaque codes at once: thorough tier.
+
+fn one_frame(ty: u8, frag: bool) {
     let mut b = [0u8; FRAME + 27];
     let hdr: [u8; 28] = kani::any();
-    let ty: u8 = kani::any();
-    kani::assume(ty != 31);
     put_header(&mut b, 0, ty, &hdr);
-    let frag: [u8; 27] = kani::any();
-    let k: usize = kani::any();
-    kani::assume(k <= 27);
-    let mut i = 0;
-    while i < 27 {
-        b[FRAME + i] = frag[i];
-        i += 1;
+    let mut k = 0usize;
+    if frag {
+        let f: [u8; 27] = kani::any();
+        let mut i = 0;
+        while i < 27 {
+            b[FRAME + i] = f[i];
+            i += 1;
+        }
+        k = kani::any();
+        kani::assume(k <= 27);
     }
     let mut c = Cursor::new(&b[..FRAME + k]);
     let ms = match decode_messages(&mut c) {
@@ -72,11 +73,36 @@ fn c03_one_frame_plus_fragment() {
     assert!(ms.len() == 1, "C03: one frame in, one message out");
     check_header(&ms[0], ty, &hdr);
     assert!(contents_kind(&ms[0]) == expected_kind(ty), "C03: wrong contents kind for the type code");
-    wit!(ty == 2 && k == 27);
-    wit!(ty == 5);
-    wit!(ty == 15 && k == 0);
-    wit!(ty == 200);
+    wit!(!frag || k == 27);
     core::mem::forget(ms);
+}
+
+macro_rules! frame_harness {
+    ($name:ident, $ty:expr, $frag:expr) => {
+        #[kani::proof]
+        #[kani::unwind(30)]
+        #[kani::stub(alloc::fmt::format, crate::stubs::fmt_format)]
+        fn $name() {
+            one_frame($ty, $frag);
+        }
+    };
+}
+frame_harness!(c03_frame_t15_fragment, 15, true);
+frame_harness!(c03_frame_t2_fragment, 2, true);
+frame_harness!(c03_frame_t5, 5, false);
+frame_harness!(c03_frame_t0, 0, false);
+frame_harness!(c03_frame_t33_fragment, 33, true);
+frame_harness!(c03_frame_t255, 255, false);
+
+/// One frame whose type code ranges over all 253 codes without a dedicated decoder (thorough).
+#[kani::proof]
+#[kani::unwind(30)]
+#[kani::stub(alloc::fmt::format, crate::stubs::fmt_format)]
+fn c03_one_opaque_frame_any_type() {
+    let ty: u8 = kani::any();
+    kani::assume(ty != 2 && ty != 5 && ty != 31);
+    one_frame(ty, false);
+    wit!(ty == 0);
 }
 
 /// Writes a minimal contiguous type-31 message (message header + 32-byte data header with one
@@ -94,22 +120,19 @@ fn put_type31(b: &mut [u8], o: usize, hdr: &[u8; 28], el: u8) -> usize {
     76
 }
 
-/// Two messages: [frame of any non-31 type][type-31] or [type-31][frame], chosen by a concrete
-/// const so that offsets stay concrete; type codes, headers and the elevation number are symbolic.
-/// Count, order, headers and contents kinds must be those of the messages decoded alone.
-fn two_messages<const FRAME_FIRST: bool>() {
+/// Two messages: [frame TY][type-31] or [type-31][frame TY]; headers and the elevation number are
+/// symbolic.  Count, order, headers and contents kinds must be those of the messages decoded alone.
+fn two_messages<const FRAME_FIRST: bool, const TY: u8>() {
     let mut b = [0u8; FRAME + 76];
     let h1: [u8; 28] = kani::any();
     let h2: [u8; 28] = kani::any();
-    let ty: u8 = kani::any();
-    kani::assume(ty != 31);
     let el: u8 = kani::any();
     if FRAME_FIRST {
-        put_header(&mut b, 0, ty, &h1);
+        put_header(&mut b, 0, TY, &h1);
         put_type31(&mut b, FRAME, &h2, el);
     } else {
         put_type31(&mut b, 0, &h1, el);
-        put_header(&mut b, 76, ty, &h2);
+        put_header(&mut b, 76, TY, &h2);
     }
     let mut c = Cursor::new(&b[..]);
     let ms = match decode_messages(&mut c) {
@@ -121,9 +144,9 @@ fn two_messages<const FRAME_FIRST: bool>() {
     };
     assert!(ms.len() == 2, "C03: two messages in, two messages out");
     let (fi, ri) = if FRAME_FIRST { (0, 1) } else { (1, 0) };
-    check_header(&ms[fi], ty, if FRAME_FIRST { &h1 } else { &h2 });
+    check_header(&ms[fi], TY, if FRAME_FIRST { &h1 } else { &h2 });
     check_header(&ms[ri], 31, if FRAME_FIRST { &h2 } else { &h1 });
-    assert!(contents_kind(&ms[fi]) == expected_kind(ty), "C03: wrong contents kind for the frame");
+    assert!(contents_kind(&ms[fi]) == expected_kind(TY), "C03: wrong contents kind for the frame");
     match ms[ri].contents() {
         MessageContents::DigitalRadarData(d) => {
             assert!(d.header.elevation_number == el, "C03: type-31 message decoded from the wrong position");
@@ -131,65 +154,36 @@ fn two_messages<const FRAME_FIRST: bool>() {
         }
         _ => panic!("C03: type-31 message surfaced as something else"),
     }
-    wit!(ty == 2);
-    wit!(ty == 15);
+    wit!(el == 9);
     core::mem::forget(ms);
 }
 
-#[kani::proof]
-#[kani::unwind(30)]
-#[kani::stub(alloc::fmt::format, crate::stubs::fmt_format)]
-#[kani::stub(<[u8; 4] as core::convert::TryFrom<&[u8]>>::try_from, crate::stubs::array_try_from)]
-fn c03_frame_then_type31() {
-    two_messages::<true>();
+macro_rules! two_harness {
+    ($name:ident, $first:expr, $ty:expr) => {
+        #[kani::proof]
+        #[kani::unwind(30)]
+        #[kani::stub(alloc::fmt::format, crate::stubs::fmt_format)]
+        #[kani::stub(<[u8; 4] as core::convert::TryFrom<&[u8]>>::try_from, crate::stubs::array_try_from)]
+        fn $name() {
+            two_messages::<$first, $ty>();
+        }
+    };
 }
+two_harness!(c03_frame15_then_type31, true, 15);
+two_harness!(c03_type31_then_frame15, false, 15);
+two_harness!(c03_type31_then_frame2, false, 2);
 
+/// Two fixed-length frames of the SAME opaque type in a row with symbolic headers (any segment
+/// count / number): two in, two out, each with its own header.
 #[kani::proof]
 #[kani::unwind(30)]
 #[kani::stub(alloc::fmt::format, crate::stubs::fmt_format)]
-#[kani::stub(<[u8; 4] as core::convert::TryFrom<&[u8]>>::try_from, crate::stubs::array_try_from)]
-fn c03_type31_then_frame() {
-    two_messages::<false>();
-}
-
-/// A stream cut inside a message body is an error, not a silently shortened list: one complete
-/// frame followed by a second header and a body cut after 0..=100 bytes.
-#[kani::proof]
-#[kani::unwind(30)]
-#[kani::stub(alloc::fmt::format, crate::stubs::fmt_format)]
-fn c03_cut_inside_body() {
-    let mut b = [0u8; FRAME + 28 + 100];
-    let h1: [u8; 28] = kani::any();
-    let h2: [u8; 28] = kani::any();
-    let ty1: u8 = kani::any();
-    let ty2: u8 = kani::any();
-    kani::assume(ty1 != 31 && ty2 != 31);
-    put_header(&mut b, 0, ty1, &h1);
-    put_header(&mut b, FRAME, ty2, &h2);
-    let k: usize = kani::any();
-    kani::assume(k <= 100);
-    let mut c = Cursor::new(&b[..FRAME + 28 + k]);
-    let r = decode_messages(&mut c);
-    assert!(r.is_err(), "C03: a stream cut inside a message body must be an error");
-    wit!(k == 0);
-    wit!(k == 100 && ty2 == 2);
-    core::mem::forget(r);
-}
-
-/// Two fixed-length frames in a row, both type codes (non-31) and both headers symbolic - in
-/// particular equal types with any segment numbers: two in, two out, each with its own header.
-#[kani::proof]
-#[kani::unwind(30)]
-#[kani::stub(alloc::fmt::format, crate::stubs::fmt_format)]
-fn c03_two_frames() {
+fn c03_two_frames_same_type() {
     let mut b = [0u8; 2 * FRAME];
     let h1: [u8; 28] = kani::any();
     let h2: [u8; 28] = kani::any();
-    let ty1: u8 = kani::any();
-    let ty2: u8 = kani::any();
-    kani::assume(ty1 != 31 && ty2 != 31);
-    put_header(&mut b, 0, ty1, &h1);
-    put_header(&mut b, FRAME, ty2, &h2);
+    put_header(&mut b, 0, 15, &h1);
+    put_header(&mut b, FRAME, 15, &h2);
     let mut c = Cursor::new(&b[..]);
     let ms = match decode_messages(&mut c) {
         Ok(ms) => ms,
@@ -199,10 +193,40 @@ fn c03_two_frames() {
         }
     };
     assert!(ms.len() == 2, "C03: two frames in, two messages out");
-    check_header(&ms[0], ty1, &h1);
-    check_header(&ms[1], ty2, &h2);
-    assert!(contents_kind(&ms[0]) == expected_kind(ty1) && contents_kind(&ms[1]) == expected_kind(ty2));
-    wit!(ty1 == ty2 && ty1 == 15);
-    wit!(ty1 == 2 && ty2 == 5);
+    check_header(&ms[0], 15, &h1);
+    check_header(&ms[1], 15, &h2);
+    wit!(h2[27] == 2);
     core::mem::forget(ms);
+}
+
+/// A stream cut inside a message body is an error, not a silently shortened list: one complete
+/// frame followed by a second header (type TY) and a body cut after 0..=100 bytes.
+fn cut_inside_body<const TY: u8>() {
+    let mut b = [0u8; FRAME + 28 + 100];
+    let h1: [u8; 28] = kani::any();
+    let h2: [u8; 28] = kani::any();
+    put_header(&mut b, 0, 15, &h1);
+    put_header(&mut b, FRAME, TY, &h2);
+    let k: usize = kani::any();
+    kani::assume(k <= 100);
+    let mut c = Cursor::new(&b[..FRAME + 28 + k]);
+    let r = decode_messages(&mut c);
+    assert!(r.is_err(), "C03: a stream cut inside a message body must be an error");
+    wit!(k == 0);
+    wit!(k == 100);
+    core::mem::forget(r);
+}
+
+#[kani::proof]
+#[kani::unwind(30)]
+#[kani::stub(alloc::fmt::format, crate::stubs::fmt_format)]
+fn c03_cut_inside_opaque_body() {
+    cut_inside_body::<13>();
+}
+
+#[kani::proof]
+#[kani::unwind(30)]
+#[kani::stub(alloc::fmt::format, crate::stubs::fmt_format)]
+fn c03_cut_inside_status_body() {
+    cut_inside_body::<2>();
 }
